@@ -690,6 +690,7 @@ func c12GenSelect(r *rng, depth int) string {
 }
 
 func propC12(o *out, r *rng, thorough bool) {
+	c12QualifiedSources(o)
 	fixed := c12Schema{
 		"m0": {Fields: map[string]string{"v1": "float", "v2": "integer", "value": "string"}, Tags: []string{"host", "region"}},
 		"m1": {Fields: map[string]string{"v1": "integer", "v2": "unsigned", "value": "boolean", "usage": "unsigned"}, Tags: []string{"dc", "host", "v1"}},
@@ -879,4 +880,74 @@ func c12OverSubquery(o *out, q, res *influxql.SelectStatement, rerr error, text,
 	}
 	o.fail(class, fmt.Sprintf("RewriteFields on %q over %s: the wildcard over the subquery %s stands for %s; the subquery's output columns %q and dimensions are missing %q, not among them %q",
 		text, sj, inner.String(), res.Fields.String(), cols, missing, surplus), rp)
+}
+
+// ---- sources that share a name but are different sources: the same measurement name in two databases, two regular
+// expressions (whose name is empty).  Metamorphic: renaming them apart must not change the expansion. ----
+type c12QMapper struct{ renamed bool }
+
+func (m c12QMapper) key(mm *influxql.Measurement) string {
+	if mm.Regex != nil {
+		return "re:" + mm.Regex.Val.String()
+	}
+	if m.renamed {
+		return mm.Name // cpu_t, cpu_a, mem_t ...
+	}
+	return mm.Database + "|" + mm.RetentionPolicy + "|" + mm.Name
+}
+
+var c12QSchemas = map[string]*c12Meas{
+	"telegraf||cpu": {Fields: map[string]string{"a": "float", "b": "integer"}, Tags: []string{"host"}},
+	"archive||cpu":  {Fields: map[string]string{"c": "string", "b": "float"}, Tags: []string{"dc"}},
+	"telegraf|week|cpu": {Fields: map[string]string{"w": "unsigned"}, Tags: []string{"host", "rack"}},
+	"re:^cpu":       {Fields: map[string]string{"r1": "float"}, Tags: []string{"t1"}},
+	"re:^mem":       {Fields: map[string]string{"r2": "integer", "r1": "integer"}, Tags: []string{"t2"}},
+	"cpu_t":         {Fields: map[string]string{"a": "float", "b": "integer"}, Tags: []string{"host"}},
+	"cpu_a":         {Fields: map[string]string{"c": "string", "b": "float"}, Tags: []string{"dc"}},
+	"cpu_w":         {Fields: map[string]string{"w": "unsigned"}, Tags: []string{"host", "rack"}},
+	"re_cpu":        {Fields: map[string]string{"r1": "float"}, Tags: []string{"t1"}},
+	"re_mem":        {Fields: map[string]string{"r2": "integer", "r1": "integer"}, Tags: []string{"t2"}},
+}
+
+func (m c12QMapper) FieldDimensions(mm *influxql.Measurement) (map[string]influxql.DataType, map[string]struct{}, error) {
+	return (&c12Mapper{c12Schema{mm.Name: c12QSchemas[m.key(mm)]}}).FieldDimensions(mm)
+}
+func (m c12QMapper) MapType(mm *influxql.Measurement, field string) influxql.DataType {
+	return (&c12Mapper{c12Schema{mm.Name: c12QSchemas[m.key(mm)]}}).MapType(mm, field)
+}
+
+func c12QualifiedSources(o *out) {
+	pairs := [][2]string{
+		{"telegraf..cpu, archive..cpu", "cpu_t, cpu_a"}, {"archive..cpu, telegraf..cpu", "cpu_a, cpu_t"}, {"/^cpu/, /^mem/", "re_cpu, re_mem"}, {"/^mem/, /^cpu/", "re_mem, re_cpu"},
+		{"telegraf..cpu, telegraf.week.cpu, archive..cpu", "cpu_t, cpu_w, cpu_a"}, {"telegraf..cpu, /^mem/, archive..cpu", "cpu_t, re_mem, cpu_a"}, {"telegraf..cpu, telegraf..cpu", "cpu_t, cpu_t"},
+	}
+	for _, fields := range []string{"*", "mean(*)", "/./", "*::tag", "*::field", "max(/^[abr]/), *", "a"} {
+		for _, dims := range []string{"", " GROUP BY *", " GROUP BY host", " GROUP BY /^(h|d|t)/"} {
+			for _, p := range pairs {
+				var outs [2]string
+				for i, renamed := range []bool{false, true} {
+					text := "SELECT " + fields + " FROM " + p[i] + dims
+					st, err := influxql.ParseStatement(text)
+					if err != nil {
+						outs[i] = "parse error"
+						continue
+					}
+					var res *influxql.SelectStatement
+					var rerr error
+					pn := safely(func() { res, rerr = st.(*influxql.SelectStatement).RewriteFields(c12QMapper{renamed}) })
+					if pn != nil || rerr != nil || res == nil {
+						outs[i] = fmt.Sprint("error ", pn, rerr)
+					} else {
+						outs[i] = res.Fields.String() + " GROUP BY " + res.Dimensions.String()
+					}
+				}
+				o.count("same-name sources")
+				o.checked()
+				if outs[0] != outs[1] {
+					o.fail("", fmt.Sprintf("SELECT %s FROM %s%s expands to %s; with the same sources under names of their own (%s) to %s", fields, p[0], dims, outs[0], p[1], outs[1]),
+						map[string]interface{}{"op": "same_name_sources", "text": fields + "|" + p[0] + "|" + dims})
+				}
+			}
+		}
+	}
 }
